@@ -31,6 +31,12 @@ type CliScenario struct {
 	Dest     string   `json:"dest"`   // default | named | stdout | missingdir | isdir | devfull
 	Opts     []string `json:"opts"`
 	Abs      bool     `json:"abs_paths"`
+	// StdinPipe > 0: standard input is a pipe delivering that many bytes per
+	// write (short reads); 0: standard input is the grammar file itself
+	StdinPipe int `json:"stdin_pipe,omitempty"`
+	// Stale > 0: the destination already exists and holds that many bytes of
+	// old content (it must be replaced, not overwritten in place)
+	Stale int `json:"stale_dest_bytes,omitempty"`
 }
 
 type CliFault struct {
@@ -208,6 +214,11 @@ func (l *cliLayout) prepare(sc *CliScenario) error {
 			return err
 		}
 	}
+	if sc.Stale > 0 && (sc.Dest == "named" || sc.Dest == "default") && !l.destIsStd {
+		if err := os.WriteFile(l.dstPath, bytes.Repeat([]byte("// stale content of an earlier run\n"), sc.Stale/35+1), 0o644); err != nil {
+			return err
+		}
+	}
 	return nil
 }
 
@@ -230,11 +241,12 @@ func (rig *cliRig) run(c *CliCase, dir string, traceAll bool) (*cliObs, error) {
 	}
 	defer os.RemoveAll(dir)
 	sp := ptrace.Spec{Argv: append([]string{rig.peg}, l.argv...), Dir: dir,
-		Env:    append(os.Environ(), "GOTRACEBACK=single"),
-		Stdin:  l.stdinFile,
-		Stdout: l.stdoutTo,
-		Stderr: filepath.Join(dir, "stderr.txt"),
-		Watch:  map[string]string{"dst": l.dstPath},
+		Env:       append(os.Environ(), "GOTRACEBACK=single"),
+		Stdin:     l.stdinFile,
+		StdinPipe: sc.StdinPipe,
+		Stdout:    l.stdoutTo,
+		Stderr:    filepath.Join(dir, "stderr.txt"),
+		Watch:     map[string]string{"dst": l.dstPath},
 	}
 	if l.srcPath != "" {
 		sp.Watch["src"] = l.srcPath
@@ -504,6 +516,10 @@ func (e *Env) cliTexts(repoCopy string, r *simrt.SplitMix64, n int) []cliText {
 		cliText{"invalid", "unclosed", hdr + "S <- ( 'a' \n"},
 		cliText{"invalid", "nul", "package p\x00\n"},
 		cliText{"empty", "empty", ""},
+		// a grammar on which the generator itself panics today (a rule defined
+		// twice; C15's business): whatever happens, exit status 0 requires a
+		// complete parser in the destination
+		cliText{"invalid", "duprule", hdr + "S <- 'a' A\nA <- 'b'\nA <- 'c'\n"},
 	)
 	for _, rel := range []string{"peg.peg", "grammars/longtest/long.peg", "grammars/calculator/calculator.peg", "grammars/fexl/fexl.peg", "cmd/peg-bootstrap/bootstrap.peg"} {
 		if b, err := os.ReadFile(filepath.Join(repoCopy, rel)); err == nil {
@@ -549,6 +565,12 @@ func (e *Env) cliScenarios(texts []cliText, r *simrt.SplitMix64, n int) []CliSce
 			sc.Opts = append(sc.Opts, []string{"-syntax", "-print"}[r.Intn(2)])
 		}
 		sc.Abs = r.Chance(1, 2)
+		if (sc.Source == "stdin" || sc.Source == "dash") && r.Chance(1, 2) {
+			sc.StdinPipe = []int{1, 7, 64, 500, 4096}[r.Intn(5)]
+		}
+		if (sc.Dest == "named" || sc.Dest == "default") && r.Chance(1, 3) {
+			sc.Stale = []int{10, 5000, 400000}[r.Intn(3)]
+		}
 		out = append(out, sc)
 	}
 	return out
